@@ -248,7 +248,9 @@ claim("C19",
       "checks that agents joining after re-labellings get the configured start position; a switch probe plays all 27 "
       "true/false/absent combinations of the global-defender, trajectory and firewall switches and checks each switch's "
       "behaviour-level effect in every combination; a goal probe plays one exfiltration script under five goals in two "
-      "delivery orders and compares the end flag after every answer with the reference subset check of the configured goal. "
+      "delivery orders and compares the end flag after every answer with the reference subset check of the configured goal; a "
+      "required-players probe (absent / 1 / 2 / 3) checks that no episode - the first or a later one after a departure - starts "
+      "before the configured number of players is in the game. "
       "The section readers (glue) are decided by correspondence: generated "
       "configurations over all subsets of optional keys go through the real ConfigParser, start_tasks and joins; parsed start "
       "position / win condition are compared with the listed items, the join reply with the configuration, the initial view with "
@@ -266,7 +268,9 @@ claim("C13",
       "mapping). valid_mapping is a boolean evaluated INSIDE Coq on every re-labelling the implementation performs; the model re-keys "
       "its own world with the implementation's published step and must arrive at the implementation's tables, initial views and "
       "step results on the re-labelled world (several consecutive resets, shipped and generated scenarios); monitors check that "
-      "the published maps compose and that goal sets, start positions and goal description follow. Equivariance (Proofs/Equivariance.v): C13_equivariant_step / "
+      "the published maps compose and that goal sets, start positions and goal description follow; the generator's random draws are "
+      "scripted at the boundaries of the RFC 1918 blocks (a base at the top of a block must be rejected by the retry) and the "
+      "accepted re-labelling is checked for private-stays-private, distances, one-to-one, addresses inside their networks. Equivariance (Proofs/Equivariance.v): C13_equivariant_step / "
       "C13_equivariant_play - every one of the six actions, and by induction every action sequence, commutes with a re-labelling "
       "that is one-to-one on the addresses and networks in play and keeps the members of a scanned network (re-keyed world, "
       "translated view, translated actions give the re-keyed world and the translated view); C13_equivariant_ready states the "
